@@ -34,17 +34,11 @@ CLAIMED = {
              "independent checksum-verifying WAL reader for page images, and SQLite's own view of the pair for the newest version.",
         design="§9 C02", note=NOTE + "partial: the composition 'version k rows = SQLite rows after commit k' is decided by correspondence + snapshots, not by one end-to-end theorem; WAL checksums are not read by the tool.", technique=T),
     "C05": dict(
-        text="Theorems: the frame count of a file cut at n bytes is the number of whole frames; every frame the truncated parse sees is, field "
-             "for field, the frame at that index of the full file (prefix); records of a prefix ending in a commit frame are a prefix of the "
-             "records; an accepted log ends in a commit frame (no frame of an unfinished transaction reaches the version history). Tied by "
-             "vh.dump correspondence over truncation offsets, per-commit snapshots and SQLite's recovery of the same pair.",
-        design="§9 C02/C05", note=NOTE + "truncation only (torn writes inside a frame are outside the quantifier); partial: version-level prefix theorem not composed end to end.", technique=T),
+        text="Theorems (Properties/C05): for EVERY cut offset n of the WAL file, the version history of the cut-off log (when accepted) is an initial segment, in commit order, of the history of the whole log, with equal Version records and equal version interfaces as functions (truncated_history_prefix / _pointwise / _take / _eq_restricted); a cut inside the 32-byte header is refused; every version k>=1 of an accepted cut-off history is the commit record of the k-th transaction of the whole log, closed by its commit frame, all of whose frames lie wholly below the cut (versions_committed); cuts right after a commit frame are accepted (non-vacuity). Frame-level half in Properties/C02. Tied by vh.dump correspondence over truncation offsets, per-commit snapshots and SQLite's recovery of the same pair.",
+        design="§9 C02/C05", note=NOTE + "truncation only (torn writes inside a frame are outside the quantifier); frame checksums are not verified by the tool nor the model: 'equals what SQLite recovers' is decided by the recovery oracle in the correspondence stage, not by a theorem.", technique=T),
     "C03": dict(
-        text="Theorems on the dictionary algebra of VersionParserIterator.next: replaying one commit report on the previous table state gives "
-             "exactly the new state for every rowid (under rowid uniqueness and digest-determines-rowid), every new cell is reported exactly once, "
-             "added/updated disjoint, classification of rowids, deleted = vanished cells whose rowid did not return, unchanged dictionary reports "
-             "nothing. Tied by vh.iter correspondence and replay against SQLite's per-commit snapshots.",
-        design="§9 C03", note=NOTE + "md5 modelled as identity on the hashed bytes (collision-freeness assumed); partial: skip_sound (an untouched b-tree has unchanged cells) is decided by the replay oracle, not by a theorem.", technique=T),
+        text="Theorems on the dictionary algebra of VersionParserIterator.next (Properties/C03: replay of one commit report reproduces the new table state for every rowid, every new cell reported exactly once, added/updated disjoint, deleted = vanished cells, unchanged dictionary reports nothing) and on the decision to skip re-reading a b-tree (Properties/C03Skip): the parse of a b-tree depends only on the pages it visited (frame lemma), and when no page of the previous parse is among the commit's updated b-tree pages and the root did not move, a re-read whose pages avoid the new version's schema/freelist/pointer-map pages returns the SAME tree, so the skipped commit rightly reports nothing (skip_sound; skip_sound_wal with every interface hypothesis discharged for commit records of the WAL model). Tied by vh.iter correspondence and replay against SQLite's per-commit snapshots.",
+        design="§9 C03", note=NOTE + "md5 modelled as identity on the hashed bytes (collision-freeness assumed); skip_sound assumes the new version's census is disjoint (C06) and that the forced re-read would succeed.", technique=T),
     "C10": dict(
         text="Kernel-checked theorems over the model of Signature.__init__ and generate_signature_regex: every examined row's serial "
              "types / classes are in the focused / simplified signature, unique_records = number of distinct digests, per-column "
@@ -101,20 +95,14 @@ CLAIMED = {
              "column shape x position x residue location with an independent before/after byte reader.",
         design="§9 C09", note=NOTE + "partial: recall through the freeblock/partial pattern at region level is decided by the grid, not by a theorem; open findings C09-xx.", technique=T),
     "C06": dict(
-        text="Theorems on the page-layout check: stable sort, telescoping identity, every SQLite-well-formed layout is accepted with "
-             "fragment total = header count, accepted layouts tile [content offset, page end) without overlap or gap, strict checking "
-             "is irrelevant on accepted pages, freeblock walk bounded and ascending. Page census tied by full-dump correspondence and "
-             "SQLite's dbstat / freelist_count / integrity_check.",
-        design="§9 C06", note=NOTE + "census theorem (each page classified exactly once) is partial: decided by correspondence + dbstat, not yet by a Lean theorem over ConsistentDb.", technique=T),
+        text="Theorems on the page-layout check (Properties/C06: stable sort, telescoping identity, every SQLite-well-formed layout accepted with fragment total = header count, accepted layouts tile [content offset, page end) without overlap or gap, strict checking irrelevant on accepted pages, freeblock walk bounded and ascending) and the page round trip (Properties/C01Tree: a page laid out as Spec.PageLaidOut — header, pointer array, cells with SQLite's 4-byte minimum allocation, freeblock chain, <= 60 fragment bytes — is parsed to exactly its cells and freeblocks). Spec.PageLaidOut is run (executable form, proved equivalent) on the pages SQLite wrote. Page census tied by full-dump correspondence and SQLite's dbstat / page_count / freelist_count / integrity_check, per version for WAL histories.",
+        design="§9 C06", note=NOTE + 'census theorem (each page classified exactly once over a whole database) is partial: decided by correspondence + dbstat, not by a Lean theorem over a whole-file specification.', technique=T),
     "C01": dict(
-        text="Full-pipeline executable model (Database.__init__, page/cell/record/overflow/tree parsing) compared section by section with "
-             "the implementation on SQLite-written databases over the whole configuration grid, rows compared with SQLite; theorems from "
-             "C15 (codecs), C16 (payload split, chain shape) and C06 (layout acceptance) cover the mechanisms the property names.",
-        design="§9 C01", note=NOTE + "partial: the end-to-end refinement theorem tree_rows over Spec.ConsistentDb is not proved; schema SQL parsing is outside the model.", technique=T),
+        text='Theorems (Properties/C01Tree, C01Cell, C01): a table b-tree laid out in the file as SQLite lays it out (Spec.TreeLaidOut over Spec.PageLaidOut over Spec.writeTableLeafCell / encodeRecord, any depth, overflow chains, page 1 included) is parsed, given the stated recursion budget, into exactly its leaf cells in traversal order, each with the stored rowid and column values (table_tree_rows); cell- and page-level round trips; codecs (C15), payload split / chain shape (C16), layout acceptance (C06). The specification is validated against files SQLite wrote (every sampled live cell and page satisfies it). Full-pipeline executable model compared section by section with the implementation over the whole configuration grid, rows compared with SQLite.',
+        design="§9 C01", note=NOTE + 'the whole-database statement (schema row -> root page -> tree) is composed by the correspondence, not by one theorem; schema SQL parsing is outside the model; usable size = page size (reserved bytes are refused by the tool).', technique=T),
     "C14": dict(
-        text="Same model and correspondence as C01 for index and WITHOUT ROWID b-trees (leaf and interior cells), entries compared as "
-             "multisets with the entries SQLite holds; index payload arithmetic proved in C16.",
-        design="§9 C14", note=NOTE + "partial: no end-to-end Lean theorem over index b-trees yet.", technique=T),
+        text='Theorems (Properties/C01Tree, C01Cell): an index / WITHOUT ROWID b-tree laid out as SQLite lays it out is parsed into exactly its cells — interior cells included — with the stored values and overflow reassembled (index_tree_entries, index_leaf_page_entries, index_leaf_cell_roundtrip); the leaf-only helpers return a sub-list (C13.leaf_cells_sublist); index payload arithmetic in C16. Same model and correspondence as C01, entries compared as multisets with the entries SQLite holds, one-column WITHOUT ROWID tables (3-byte cells) included.',
+        design="§9 C14", note=NOTE + 'key order / uniqueness of index entries is not part of the property; collation is irrelevant to decoding.', technique=T),
     "C13": dict(
         text="Theorem strict_irrelevant (relaxed checking never changes an accepted layout) plus model/implementation correspondence under "
              "every (store_in_memory, strict) combination; implementation compared pairwise over all 48 configurations and run twice.",
